@@ -26,6 +26,7 @@ fn main() {
     match args[1].as_str() {
         "codec" => codec::cases(rest),
         "static" => statics::cases(rest),
+        "contend" => statics::contend(rest),
         "compress" => compress::cases(rest),
         "c17" => c17::run(rest),
         "graph" => graph::cases(rest),
